@@ -3,7 +3,7 @@
    checked against model/Pipeline.v by vm_compute. Only projected observables. *)
 From Coq Require Import String List NArith Bool.
 From J5V.lib Require Import Outcome Corr.
-From J5V.model Require Import Pipeline.
+From J5V.model Require Import Pipeline PipelineEntity.
 From J5V.gen Require SwaggerGen.
 Import ListNotations.
 Local Open Scope N_scope.
@@ -30,6 +30,13 @@ Inductive c16case :=
          (src_kind : nat) (src : list (str * list src_method))
          (cli_kind : nat) (cli : list cm_obs) (keys : list key)
          (sw_kind : nat)
+(* the same with the entity annotations of the package's objects instead of pre-computed walk roots:
+   the model groups them (walkSourceSchemas) and derives the roots itself *)
+| CChainE (anns : list ent_ann) (im : image)
+          (src_kind : nat) (src : list (str * list src_method))
+          (cli_kind : nat) (cli : list cm_obs) (keys : list key)
+          (ents : list (str * str * list str))      (* entities of the client API: name, state schema, event names *)
+          (sw_kind : nat)
 (* the client stage and swagger on a hand-built source API (services given directly) *)
 | CClient (im : image) (api : src_api)
           (cli_kind : nat) (cli : list cm_obs) (keys : list key)
@@ -92,6 +99,27 @@ Definition c16_check (c : c16case) : bool :=
       end
   | CChain im sk src ck cli keys wk =>
       let r := run_chain current_config im in
+      Nat.eqb (kind (cr_source r)) sk
+      && match cr_source r with Ok api => src_matches api src | _ => true end
+      && (Nat.eqb sk 0 || Nat.eqb ck 9) && (Nat.eqb sk 0 && Nat.eqb ck 0 || Nat.eqb wk 9)
+      && (negb (Nat.eqb sk 0) ||
+          (Nat.eqb (kind (cr_client r)) ck
+           && match cr_client r with Ok (ms, ks) => cli_matches ms cli && keys_match ks keys | _ => true end))
+      && (negb (Nat.eqb sk 0 && Nat.eqb ck 0) || Nat.eqb (kind (cr_swagger r)) wk)
+  | CChainE anns im sk src ck cli keys eobs wk =>
+      let r := run_chain_ent current_config im anns in
+      (* the entities the client API lists: the model's grouping, state schema and event names *)
+      (negb (Nat.eqb sk 0 && Nat.eqb ck 0) ||
+       match walk_source_schemas anns with
+       | Ok es =>
+           Nat.eqb (length es) (length eobs)
+           && forallb (fun o =>
+                existsb (fun e =>
+                  str_eqb (en_name e) (fst (fst o))
+                  && match en_state e with Some k => str_eqb (fst k ++ DOT :: snd k) (snd (fst o)) | None => false end
+                  && match entity_events (im_schemas im) e with Ok evs => strs_eqb evs (snd o) | _ => false end) es) eobs
+       | _ => false
+       end) &&
       Nat.eqb (kind (cr_source r)) sk
       && match cr_source r with Ok api => src_matches api src | _ => true end
       && (Nat.eqb sk 0 || Nat.eqb ck 9) && (Nat.eqb sk 0 && Nat.eqb ck 0 || Nat.eqb wk 9)
